@@ -505,7 +505,7 @@ def _run(ctx, name, n, do_model):
                              "before the handshake validator had accepted it (first reply %r)"
                              % (st, "/".join(sorted(set(o["premature"]))), o["replies"][:1]), cases[-1])
                 good_first = (first[0] == "msg" and first[1]["type"] == 1 and first[1]["ser"] in (1, 2, 3, 4)
-                              and first[1]["body"] == ("handshake", True, True, "accept"))
+                              and first[1]["body"] == ("handshake", True, True, "accept") and first[1].get("magic") is None)
                 if accepted and not good_first:
                     ctx.fail("handshake-accepted-wrongly", "%s server answered CONNECTOK to first item %r" % (st, first), cases[-1])
                 if not good_first:
